@@ -58,6 +58,16 @@ theorem mix_is_never_ok (sch : SchemaEval) (d proj : Doc) (pi pe : String) (vi v
   | error e => exact ⟨e, h2 e h⟩
   | ok st => exact ⟨.err, h1 st h⟩
 
+/-- `$elemMatch` is inclusion-style: together with an exclusion flag on another path (not `_id`) it
+    is the same error. -/
+theorem mix_elemMatch_is_error (sch : SchemaEval) (d proj : Doc) (pi pe : String) (q ve : V)
+    (hop : isOpKey "$elemMatch" = true)
+    (hi : (pi, .doc [("$elemMatch", q)]) ∈ proj)
+    (he : (pe, ve) ∈ proj) (fe : flagOf ve = some false) (hne : pe ≠ "_id") :
+    (∀ st, projProcess sch {} d proj = .ok st → Project sch d proj = .error .err) ∧
+    (∀ e, projProcess sch {} d proj = .error e → Project sch d proj = .error e) :=
+  mix_elemMatch_error sch d proj pi pe q ve hop hi he fe hne
+
 /-- For a flag-only projection in which every exclusion flag sits on `_id`, processing succeeds with
     NO exclusion registered, so the mixing check does not fire; `_id: 0` only sets `hideID`.
     (What the result then is: `inclusion_result_toplevel`.) -/
@@ -451,6 +461,7 @@ def doc1 : Doc :=
 #guard isErr (Project sch0 doc1 [("a", .i32 1), ("b", .i32 0)])
 #guard isErr (Project sch0 doc1 [("b", .bool false), ("a", .f64 0x3FF0000000000000)])
 #guard isOk (Project sch0 doc1 [("_id", .i32 0), ("b", .i32 1)]) [("b", .str "x")]
+#guard isErr (Project sch0 doc1 [("a", .doc [("$elemMatch", .doc [("$gt", .i32 2)])]), ("b", .i32 0)])
 -- 2. $slice: counts, pairs, extremes
 #guard countWindow 5 2 == (0, 2) && countWindow 5 (-2) == (3, 2) && countWindow 5 0 == (0, 0)
 #guard countWindow 5 i64Max == (0, 5) && countWindow 5 i64Min == (0, 5) && countWindow 5 (-7) == (0, 5)
